@@ -1357,6 +1357,10 @@ def _run_initializer(P, u, pu, src, base_name, alen, in_struct=False):
 
     def mk(ctx):
         base = it.materialise_global(base_name, tyu.globals[base_name])
+        lb = lit[0].fields.get('ty', 0)
+        lb = lb.fields.get('base', 0) if isinstance(lb, Obj) else 0
+        if isinstance(lb, Obj) and isinstance(base, Obj) and lb.label is not None and lb.label == base.label:
+            base = lb           # the program has one object per type.c global; both interpreters must see the same one
         if not isinstance(base, Obj) or not isinstance(base.fields.get('size'), int):
             raise AnalysisBroken('type object %s is not a concrete Type' % base_name)
         bs, ba = base.fields['size'], base.fields.get('align', 1)
@@ -1415,6 +1419,16 @@ _DECL_TYPES = {1: [('char', 'ty_char'), ('unsigned-char', 'ty_uchar')], 2: [('sh
 _INIT_LITS = [('narrow', '"a\\xff\\x80"', 1), ('u8', 'u8"a\u00e9"', 1), ('utf16', 'u"a\\xfff0\U0001F363"', 2), ('utf32', 'U"a\\xfffffff0"', 4), ('wide', 'L"a\\xfffffff0\u3042"', 4)]
 
 
+def describe_ty(it, t):
+    sg = L.type_sig(it, t)
+    if not sg:
+        return 'no type'
+    if sg[0] == 'TY_ARRAY':
+        b = sg[2] or ('?', 0, 0)
+        return '%s%s[%s] (size %s)' % ('unsigned ' if b[2] else '', str(b[0])[3:].lower(), sg[3], sg[1])
+    return '%s%s' % ('unsigned ' if sg[2] else '', str(sg[0])[3:].lower())
+
+
 def r1114(P, u, rep):
     pu = P.unit(PAU)
     fn = 'initializer'
@@ -1427,15 +1441,6 @@ def r1114(P, u, rep):
              'code units; a literal whose element width differs from the array\'s is diagnosed (C11 6.7.9p14, p15)', floor=40)
     where = _where(pu, 'string_initializer')
     tyu = P.unit('type.c')
-
-    def describe_ty(it, t):
-        sg = L.type_sig(it, t)
-        if not sg:
-            return 'no type'
-        if sg[0] == 'TY_ARRAY':
-            b = sg[2] or ('?', 0, 0)
-            return '%s%s[%s] (size %s)' % ('unsigned ' if b[2] else '', str(b[0])[3:].lower(), sg[3], sg[1])
-        return '%s%s' % ('unsigned ' if sg[2] else '', str(sg[0])[3:].lower())
 
     for lname, lsrc, width in _INIT_LITS:
         for dname, dobj in _DECL_TYPES[width]:
@@ -1634,7 +1639,7 @@ def r1116(P, u, rep):
         if nd.fields.get('kind') != nd_num:
             msgs.append('the node is not ND_NUM')
         if nd.fields.get('ty', 0) is not tok.fields.get('ty', 0) and nsig != tsig:
-            msgs.append('the expression has type %r, the constant has type %r' % (nsig, tsig))
+            msgs.append('the expression has type %s, the constant has type %s' % (describe_ty(it, nd.fields.get('ty', 0)), describe_ty(lx.it, tok.fields.get('ty', 0))))
         if isf and nd.fields.get('fval') is not marker:
             msgs.append('the expression has the value %r, not the long double value of the token' % (nd.fields.get('fval'),))
         if not isf and nd.fields.get('val') != tok.fields.get('val'):
@@ -1655,7 +1660,7 @@ def r1116(P, u, rep):
             msgs.append('the node is not an ND_VAR of an anonymous object')
         else:
             if var.fields.get('ty', 0) is not tok.fields.get('ty', 0) and L.type_sig(it, var.fields.get('ty', 0)) != L.type_sig(lx.it, tok.fields.get('ty', 0)):
-                msgs.append('the object has type %r, the literal %r' % (L.type_sig(it, var.fields.get('ty', 0)), L.type_sig(lx.it, tok.fields.get('ty', 0))))
+                msgs.append('the object has type %s, the literal has type %s' % (describe_ty(it, var.fields.get('ty', 0)), describe_ty(lx.it, tok.fields.get('ty', 0))))
             sz = (L.type_sig(lx.it, tok.fields.get('ty', 0)) or (0, 0))[1]
             a, b = L.buf_bytes(var.fields.get('init_data', 0), sz), L.buf_bytes(tok.fields.get('str', 0), sz)
             if a is None or a != b:
@@ -1674,9 +1679,17 @@ def run(P, rep, tier):
                        'End of buffer (R11.12): every cut of every corpus spelling is tokenized as a buffer that ends at its NUL without a newline, with a '
                        'watched red zone behind the terminator: any read behind the terminator is a violation, and tokens/constants must equal those of the '
                        'newline-terminated text. '
+                       'Lengths (R11.3, R11.13): hex escapes with every digit count to 40 and samples to 4200, and identifiers, numbers, string literals of every prefix, '
+                       'comments, spliced lines and concatenations of up to 4200 characters are run; a limit of any scanner below that is a violation. '
+                       'Use of the literal (R11.14, R11.16): parse.c initializer() and primary() are interpreted on the tokens the tokenizer produced; the object initialised '
+                       'by a string literal keeps its declared element type, takes its length from the literal when its size is unknown, receives the code units, and a literal '
+                       'of another element width is diagnosed; a literal expression has the token\'s type and value. '
+                       'Names of the literal types (R11.15): every typedef of wchar_t / char16_t / char32_t (and the atomic_ variants) in the bundled headers, read through '
+                       'clang without its predefined macros, is compared with the type of the tokens of L / u / U literals. '
                        'Not decided: strtoul/strtold themselves, code points other than the sampled ones.')
     rep.assumptions += ['libc functions behave as ISO C 7.4/7.22/7.24 specify (python models)', 'x86-64: char is signed, LP64',
-                        'UTF-8/UTF-16 oracles are python\'s codecs (RFC 3629 / RFC 2781)']
+                        'UTF-8/UTF-16 oracles are python\'s codecs (RFC 3629 / RFC 2781)',
+                        'R11.14: declared element types are the type.c objects ty_char/ty_uchar/ty_short/ty_ushort/ty_int/ty_uint; a scanner limit above 4200 characters is not seen']
     _need(u, 'tokenize', 'tokenize_file', 'convert_pp_int', 'convert_pp_number', 'read_escaped_char', 'read_utf16_string_literal')
     for rule, f in (('R11.1', lambda: r111(P, u, rep)), ('R11.3', lambda: r113(P, u, rep)), ('R11.4', lambda: r114(P, rep)),
                     ('R11.5', lambda: r115(P, u, rep)), ('R11.6', lambda: r116(P, u, rep)), ('R11.7', lambda: r117(P, u, rep)),
